@@ -5,7 +5,7 @@ TRUSTED = [
     "CBMC's pointer model: object id in the top 16 bits, offset in the low 48; distinct objects never abut",
     "dev-profile semantics: debug assertions and overflow checks ON (Kani's model of the crate)",
     "the code analysed is a verbatim copy of /repo's working tree (src/**, README.md, Cargo.lock) with #[cfg(kani)] include lines APPENDED; the scratch Cargo.toml allows the lint dangerous_implicit_autorefs (deny-by-default on this toolchain, not a semantic change)",
-    "global allocator models (stubs of alloc::alloc::{alloc,dealloc}): A-cut (paths needing a new chunk excluded), A-null (refuses everything, logs requests), A-pool (<=3 concrete slots, symbolic refusal mask, symbolic displacement, ledger)",
+    "global allocator models (stubs of alloc::alloc::{alloc,dealloc}): A-cut (paths needing a new chunk excluded), A-null (refuses everything, logs requests), A-pool (<=3 concrete 1136-byte slots, symbolic refusal mask, block displacement 0/1/3 x alignment fixed per instance, end-aligned placement, ledger with double-free / foreign-free / layout-mismatch flags)",
     "ptr::copy / ptr::copy_nonoverlapping replaced by explicit loops (the latter asserting non-overlap) where listed in stubs_active",
     "representation invariant RI assumed for hand-made arena states (DESIGN 4.1), established by the real constructors in the F0 base-case harnesses",
     "the induction from base case + single step to arbitrary histories is a pen-and-paper argument (DESIGN 4.4), not machine-checked",
